@@ -20,6 +20,10 @@ class Faults:
     fault = 0
     hit = None        # nid of the object whose printer invocation was made to fail
     always = None     # nid whose printer fails at EVERY invocation (reference renderings)
+    also = ()         # further invocation indices that fail in the same call (pairs of faults)
+    always_set = ()   # nids whose printers fail at every invocation
+    hits = None       # list of nids hit when `also` is used
+    order = None      # nid of every invocation, in order (when a list)
     exc = ValueError
     msg = 'boom'
 
@@ -51,10 +55,14 @@ class MyError(Exception):
 @P.register_pretty(U)
 def pretty_u(value, ctx):
     Faults.inv += 1
-    if Faults.inv == Faults.fault:
+    if Faults.order is not None:
+        Faults.order.append(value.nid)
+    if Faults.inv == Faults.fault or Faults.inv in Faults.also:
         Faults.hit = value.nid
+        if Faults.hits is not None:
+            Faults.hits.append(value.nid)
         raise Faults.exc(Faults.msg)
-    if Faults.always == value.nid:
+    if Faults.always == value.nid or value.nid in Faults.always_set:
         raise ValueError('reference rendering')
     return P.pretty_call(ctx, U, *value.kids)
 
@@ -62,10 +70,14 @@ def pretty_u(value, ctx):
 @P.register_pretty(V)
 def pretty_v(value, ctx, trailing_comment=None):
     Faults.inv += 1
-    if Faults.inv == Faults.fault:
+    if Faults.order is not None:
+        Faults.order.append(value.nid)
+    if Faults.inv == Faults.fault or Faults.inv in Faults.also:
         Faults.hit = value.nid
+        if Faults.hits is not None:
+            Faults.hits.append(value.nid)
         raise Faults.exc(Faults.msg)
-    if Faults.always == value.nid:
+    if Faults.always == value.nid or value.nid in Faults.always_set:
         raise ValueError('reference rendering')
     return P.pretty_call(ctx, U, *value.kids)
 
@@ -101,6 +113,8 @@ def canonical(graph, root):
     for n in order:
         nd = graph[n - 1]
         g.append({'k': nd['k'], 'c': [ren[r] if r > 0 else r for r in nd['c']], 'tc': nd.get('tc', 0)})
+        if nd.get('cm'):
+            g[-1]['cm'] = 1
         if nd['k'] == 'obj':
             g[-1]['acc'] = bool(nd.get('acc'))
     return g, 1
@@ -186,6 +200,10 @@ def build(graph):
 def wrap(graph, r, obj):
     if r > 0 and graph[r - 1].get('tc'):
         return P.trailing_comment(obj, 'tc')
+    if r > 0 and graph[r - 1].get('cm'):
+        # wherever the node is referenced it carries a comment (as a dict value it is then rendered a second time,
+        # lazily, when the comment does not fit on its line)
+        return P.comment(obj, 'a comment on node %d' % r)
     return obj
 
 
@@ -321,6 +339,13 @@ def graph_universe(chk):
             add(random_graph(rng, 4))
     for _ in range(300 if q else 5000):
         add(random_graph(rng, rng.randint(4, 10)))
+    # cycles / shared nodes that are reached through comment() wrappers (dict values, list items, tuple items)
+    for _ in range(300 if q else 5000):
+        g = random_graph(rng, rng.randint(2, 6), kinds=('list', 'dict', 'dict', 'tuple'))
+        for nd in g:
+            if rng.random() < 0.5:
+                nd['cm'] = 1
+        add(g)
     # cycles that run through instances of user types (printed with pretty_call) as well
     for _ in range(300 if q else 5000):
         g = random_graph(rng, rng.randint(2, 7), kinds=('list', 'dict', 'obj', 'obj', 'tuple'))
@@ -408,7 +433,8 @@ def check_c13(chk, args):
             continue
         m.update({'out': o['out'], 'out2': o['out2'], 'residue': o['residue']})
         cases.append({'id': i + 1, 'graph': [{'k': nd['k'], 'c': nd['c']} for nd in g], 'root': r, 'fault': 0,
-                      'obs': o['obs'], 'obs2': o['obs2'], 'log': o['log'], 'residue': o['residue'], 'nwarn': o['nwarn']})
+                      'obs': o['obs'], 'obs2': o['obs2'], 'log': o['log'], 'residue': o['residue'], 'nwarn': o['nwarn'],
+                      'lazy': any(nd.get('cm') for nd in g)})
         meta[i + 1] = m
         if any(t[0] == 'rec' for t in o['obs']):
             chk.nontrivial(repr(g))
@@ -569,13 +595,14 @@ def check_c14(chk, args):
                                   % (o['warn_names'], m), m)
                 cases.append({'id': cid, 'graph': [{'k': nd['k'], 'c': nd['c']} for nd in g], 'root': r, 'fault': fault,
                               'obs': o['obs'], 'obs2': o['obs2'], 'log': o['log'], 'residue': o['residue'],
-                              'nwarn': o['nwarn']})
+                              'nwarn': o['nwarn'], 'lazy': False})
                 meta[cid] = m
                 chk.nontrivial((repr(g), fault, exc.__name__))
     nv, nd, st = run_cases(chk, cases, meta, 'C14')
     chk.cov['evaluations'] = len(cases) * 2
     non_doc_scenarios(chk)
     commented_scenarios(chk)
+    pair_faults(chk, trees[:: 3 if q else 1])
     chk.cov['traces_validated_against_impl'] = len(cases)
     chk.cov['rule'] = ('trees / DAGs (<= 6 nodes) of instrumented user objects printed with pretty_call, nested in lists and '
                        'dicts, with and without trailing_comment wrappers, printers that do / do not accept '
@@ -681,6 +708,75 @@ def commented_scenarios(chk):
                     chk.nontrivial(('commented', name, width, fault, exc.__name__))
     chk.cov['evaluations'] += n
     chk.stage('commented', executions=n, faults_injected=nf)
+
+
+def pair_faults(chk, trees):
+    """Two printer invocations fail in ONE pformat call (pairs sampled): each failing value is rendered with its
+    repr and EACH gets a UserWarning naming the printer - also when both values have the same printer -, every other
+    part is what it would have been, and a later call is unaffected."""
+    q = chk.tier == 'quick'
+    rng = chk.rng
+    n = 0
+    for g, r in trees:
+        objs = build(g)
+        root = objs[r - 1]
+
+        def render(fault=0, also=(), always_set=(), exc=ValueError):
+            Faults.inv, Faults.fault, Faults.also, Faults.always_set = 0, fault, tuple(also), tuple(always_set)
+            Faults.exc, Faults.msg, Faults.hits, Faults.order = exc, 'boom', [], []
+            try:
+                with warnings.catch_warnings(record=True) as wl:
+                    warnings.simplefilter('always')
+                    with common.time_limit(20):
+                        out = P.pformat(root, width=40)
+            finally:
+                ninv, hits, order = Faults.inv, list(Faults.hits), list(Faults.order)
+                Faults.inv, Faults.fault, Faults.also, Faults.always_set, Faults.hits, Faults.order = 0, 0, (), (), None, None
+            render.order = order
+            return out, [str(w.message) for w in wl if 'raised an exception' in str(w.message)], ninv, hits
+        try:
+            base, w0, ninv, _ = render()
+            base_order = render.order
+        except (Exception, common.Timeout):  # noqa  (reported by the single-fault pass)
+            continue
+        if ninv < 2:
+            continue
+        pairs = [(i, j) for i in range(1, ninv + 1) for j in range(i + 1, ninv + 1)]
+        for i, j in (rng.sample(pairs, min(len(pairs), 3 if q else 12))):
+            exc = rng.choice(EXCS)
+            desc = {'graph': g, 'faults': [i, j], 'exception': exc.__name__, 'baseline': base}
+            n += 1
+            try:
+                out, wl, _, hits = render(i, also=(j,), exc=exc)
+            except (Exception, common.Timeout) as e:  # noqa
+                chk.violation('C14.contained', 'invocations #%d and #%d raising %s escaped from pformat as %r: graph=%r'
+                              % (i, j, exc.__name__, e, g), desc)
+                continue
+            desc['output'] = out
+            if not hits:
+                continue
+            ref = render(always_set=set(hits))[0]
+            if len(wl) != len(hits):
+                chk.violation('C14.warning', '%d printer invocations failed in one call (objects %r) but %d UserWarning(s) '
+                              'naming the printer were issued: graph=%r output=%r' % (len(hits), hits, len(wl), g, out), desc)
+            elif not all('pretty_u' in m or 'pretty_v' in m for m in wl):
+                chk.violation('C14.warning', 'a warning does not name the failing printer: %r' % (wl,), desc)
+            # (an object that is printed more than once - a shared node - fails at ONE of its occurrences only: the
+            # all-occurrences reference does not apply)
+            if all(base_order.count(h) == 1 for h in hits) and out != ref:
+                chk.violation('C14.others-unchanged', 'with invocations #%d and #%d failing the output is not the fault-free '
+                              'text with exactly the objects %r rendered as their repr: %r vs %r' % (i, j, hits, out, ref),
+                              dict(desc, reference=ref))
+            try:
+                again = render()[0]
+            except (Exception, common.Timeout) as e:  # noqa
+                again = repr(e)
+            if again != base:
+                chk.violation('C14.later-calls', 'a fault-free print after two failures differs from the baseline: %r'
+                              % (again,), desc)
+            chk.nontrivial(('pair', repr(g), i, j))
+    chk.cov['evaluations'] += n
+    chk.stage('fault-pairs', executions=n)
 
 
 class NonDoc:
